@@ -136,3 +136,122 @@ UNITS = [
     Unit("c16_size", build_simple("size"), "h_sa", enforce="SA_size", timeout=120, must_have=[r"SA_size.postcondition", r"celer_ensure"], checks=["--bounds-check", "--pointer-check"],
          note="StackAllocator::size (own ENSURE result <= capacity under the sequential invariant)"),
 ]
+
+
+# ---------------------------------------------------------------------------
+# capacity validation precedes initializer writes (host actions)
+# ---------------------------------------------------------------------------
+EFP = "src/celeritas/track/ExtendFromPrimariesAction.cc"
+EFS = "src/celeritas/track/ExtendFromSecondariesAction.cc"
+
+HOST_MODEL = """
+typedef struct { size_type num_initializers, num_vacancies, num_secondaries, num_alive, num_active, num_generated, num_pending; } CoreStateCounters;   /* members used here */
+typedef struct { CoreStateCounters counters; size_type size_; size_type init_capacity; } CoreState;    /* counters(), size(), ref().init.initializers.size() */
+typedef struct { size_type init_capacity; } CoreParams;                                               /* init()->capacity() */
+typedef struct { void const* ptr; size_type size; } SpanPrimary;
+int g_threw;          /* ghost: CELER_VALIDATE threw (exception = flag + early return) */
+int g_writes;         /* ghost: number of initializer-writing kernels launched */
+#define CELER_VALIDATE_C(c) if (!(c)) { g_threw = 1; return; }
+"""
+
+EFP_RULES = [
+    Rule(r"state\.counters\(\)\.", "state->counters.", "*", note="CoreStateInterface::counters()"),
+    Rule(r"params\.init\(\)->capacity\(\)", "params->init_capacity", "*", note="TrackInitParams::capacity()"),
+    Rule(r"host_primaries\.size\(\)", "host_primaries.size", "*", note="Span::size()"),
+    Rule(r"CELER_VALIDATE\(([^,]*),.*?\);", r"CELER_VALIDATE_C(\1)", 1, flags=16, note="CELER_VALIDATE(cond, << message) -> ghost throw flag + early return (message dropped)"),
+    Rule(r"if \(auto\* s = dynamic_cast<CoreState<MemSpace::host>\*>\(&state\)\).*CELER_ASSERT_UNREACHABLE\(\);\s*\}", "EFP_insert_impl(state, host_primaries);", 1, flags=16,
+         note="dynamic_cast dispatch to insert_impl<host|device> -> one call to the stub"),
+]
+
+
+def build_efp_insert(ctx):
+    pc = ctx.func(EFP, r"^void ExtendFromPrimariesAction::insert\(CoreParams const& params,", EFP_RULES, name="ExtendFromPrimariesAction::insert")
+    return (HDR + HOST_MODEL + """
+/* insert_impl copies ALL host primaries into the initializer buffer behind the pending ones (ProcessPrimariesExecutor writes
+ * initializers[num_initializers .. num_initializers + n)); its precondition is that they fit */
+void EFP_insert_impl(CoreState* state, SpanPrimary host_primaries)
+__CPROVER_requires(state != 0)
+__CPROVER_requires((unsigned __int128)host_primaries.size + state->counters.num_initializers <= state->init_capacity)
+__CPROVER_assigns(g_writes, state->counters)
+__CPROVER_ensures(g_writes == __CPROVER_old(g_writes) + 1)
+;
+void EFP_insert(CoreParams const* params, CoreState* state, SpanPrimary host_primaries)
+__CPROVER_requires(params != 0 && state != 0 && params->init_capacity == state->init_capacity && g_threw == 0 && g_writes == 0)
+__CPROVER_requires((unsigned __int128)host_primaries.size + state->counters.num_initializers <= (unsigned __int128)(size_type)-1)   /* stated range: the sum does not wrap */
+__CPROVER_assigns(g_threw, g_writes, state->counters)
+/* either it fits and the primaries are written, or an error is reported and nothing is written */
+__CPROVER_ensures(g_threw ? g_writes == 0 : g_writes == 1)
+__CPROVER_ensures(g_threw == ((unsigned __int128)host_primaries.size + __CPROVER_old(state->counters.num_initializers) > state->init_capacity))
+{""" + pc.body + """}
+void h_efp(void)
+{
+    CoreParams p; CoreState s; SpanPrimary pr;
+    EFP_insert(&p, &s, pr);
+    VERIF_CANARY();
+}
+""")
+
+
+EFS_RULES = [
+    Rule(r"TrackInitStateData<Ownership::reference, M>& init = core_state\.ref\(\)\.init;", "", 1, note="reference to the init state dropped (members lowered below)"),
+    Rule(r"CoreStateCounters& counters = core_state\.counters\(\);", "CoreStateCounters* counters_ = &core_state->counters;", 1, note="reference -> pointer"),
+    Rule(r"\bcounters\.", "counters_->", "*", note="reference -> pointer"),
+    Rule(r"this->locate_alive\(core_params, core_state\);", "EFS_locate_alive(core_state);", 1, note="kernel launch -> stub"),
+    Rule(r"remove_if_alive\(init\.vacancies, core_state\.stream_id\(\)\)", "EFS_remove_if_alive(core_state)", 1, note="algorithm -> stub (assumed contract)"),
+    Rule(r"exclusive_scan_counts\(\s*init\.secondary_counts, core_state\.stream_id\(\)\)", "EFS_exclusive_scan_counts(core_state)", 1, note="algorithm -> stub (assumed contract)"),
+    Rule(r"init\.initializers\.size\(\)", "core_state->init_capacity", "*", note="Collection::size()"),
+    Rule(r"core_state\.size\(\)", "core_state->size_", "*", note="CoreState::size()"),
+    Rule(r"CELER_VALIDATE\(([^,]*),.*?\);", r"CELER_VALIDATE_C(\1)", 1, flags=16, note="CELER_VALIDATE -> ghost throw flag + early return"),
+    Rule(r"this->process_secondaries\(core_params, core_state\);", "EFS_process_secondaries(core_state);", 1, note="kernel launch -> stub"),
+]
+
+
+def build_efs_step(ctx):
+    pc = ctx.func(EFS, r"^void ExtendFromSecondariesAction::step_impl\(CoreParams const& core_params,", EFS_RULES, name="ExtendFromSecondariesAction::step_impl")
+    return (HDR + HOST_MODEL + """
+void EFS_locate_alive(CoreState* st) __CPROVER_requires(st != 0) __CPROVER_assigns() __CPROVER_ensures(1);   /* writes vacancies / secondary_counts only (unit c02_locate_alive) */
+size_type g_total_secondaries;   /* ghost: what the scan returns */
+/* std::remove_if over the vacancy list: returns the number of remaining (vacant) slots <= size (assumed contract) */
+size_type EFS_remove_if_alive(CoreState* st) __CPROVER_requires(st != 0) __CPROVER_assigns() __CPROVER_ensures(__CPROVER_return_value <= st->size_);
+/* std::exclusive_scan over the per-slot counts: returns their total (assumed contract) */
+size_type EFS_exclusive_scan_counts(CoreState* st) __CPROVER_requires(st != 0) __CPROVER_assigns() __CPROVER_ensures(__CPROVER_return_value == g_total_secondaries);
+/* ProcessSecondariesExecutor writes initializers[num_initializers - num_secondaries .. num_initializers): needs that range inside the buffer */
+void EFS_process_secondaries(CoreState* st)
+__CPROVER_requires(st != 0)
+__CPROVER_requires(st->counters.num_secondaries <= st->counters.num_initializers && st->counters.num_initializers <= st->init_capacity)
+__CPROVER_requires(st->counters.num_alive == st->size_ - st->counters.num_vacancies)
+__CPROVER_assigns(g_writes)
+__CPROVER_ensures(g_writes == __CPROVER_old(g_writes) + 1)
+;
+void EFS_step_impl(CoreParams const* core_params, CoreState* core_state)
+__CPROVER_requires(core_params != 0 && core_state != 0 && g_threw == 0 && g_writes == 0)
+__CPROVER_requires(core_state->counters.num_initializers <= core_state->init_capacity)    /* invariant between steps */
+__CPROVER_requires((unsigned __int128)core_state->init_capacity + g_total_secondaries < ((unsigned __int128)1 << 63))   /* stated range: counts do not wrap */
+__CPROVER_assigns(g_threw, g_writes, core_state->counters)
+/* the secondaries are queued iff they fit; otherwise an error is reported BEFORE any initializer is written */
+__CPROVER_ensures(g_threw ? g_writes == 0 : g_writes == 1)
+__CPROVER_ensures(g_threw == ((unsigned __int128)__CPROVER_old(core_state->counters.num_initializers) + g_total_secondaries > core_state->init_capacity))
+/* counters */
+__CPROVER_ensures(core_state->counters.num_secondaries == g_total_secondaries && core_state->counters.num_vacancies <= core_state->size_)
+__CPROVER_ensures(!g_threw ==> (core_state->counters.num_alive == core_state->size_ - core_state->counters.num_vacancies && core_state->counters.num_initializers == __CPROVER_old(core_state->counters.num_initializers) + g_total_secondaries))
+{""" + pc.body + """}
+void h_efs(void)
+{
+    CoreParams p; CoreState s; size_type tot;
+    g_total_secondaries = tot;
+    EFS_step_impl(&p, &s);
+    VERIF_CANARY();
+}
+""")
+
+
+UNITS += [
+    Unit("c16_efp_insert", build_efp_insert, "h_efp", enforce="EFP_insert", replace=["EFP_insert_impl"], timeout=120,
+         must_have=[r"EFP_insert.postcondition", r"EFP_insert_impl.precondition"], checks=["--bounds-check", "--pointer-check", "--unsigned-overflow-check"],
+         assumptions=["insert_impl writes all host primaries behind the pending initializers (its precondition: they fit); CELER_VALIDATE = ghost flag + early return"],
+         note="ExtendFromPrimariesAction::insert: error reported iff primaries + pending > capacity, and then nothing is written; otherwise the writer's precondition holds"),
+    Unit("c16_efs_step", build_efs_step, "h_efs", enforce="EFS_step_impl", replace=["EFS_locate_alive", "EFS_remove_if_alive", "EFS_exclusive_scan_counts", "EFS_process_secondaries"], timeout=120,
+         must_have=[r"EFS_step_impl.postcondition", r"EFS_process_secondaries.precondition"], checks=["--bounds-check", "--pointer-check"],
+         assumptions=["std::remove_if / exclusive_scan contracts assumed; kernels replaced by their contracts", "capacity + total secondaries of the step < 2^63 (stated range so that the counter addition does not wrap)"],
+         note="ExtendFromSecondariesAction::step_impl: capacity validated before ProcessSecondaries writes; num_alive = size - num_vacancies; num_initializers += total"),
+]
